@@ -663,6 +663,26 @@ func c02Cell(p vbase.Params, r *vbase.Result, scheme string, cache uint, n, repI
 			qs[liar] = hotstuff.NewQuorumCert(w.assemble(honest(SA[:min(len(SA), q-1)], C.ToBytes()), nil, 0), C.View(), C.Hash())
 			mutA("signer-attests-subquorum-qc", qs, w.assemble(aggPieces(T, tv, qs), nil, 0), tv)
 		}
+		// ... or an INVALID certificate that names the same view and block as the best valid QC another signer attests:
+		// whatever order the entries are examined in, the valid copy must still be found
+		if q >= 2 && len(T) >= 2 {
+			var holder, liar2 hotstuff.ID
+			for _, id := range T {
+				if qcOf(id).BlockHash() == qcB.BlockHash() && holder == 0 {
+					holder = id
+				}
+			}
+			for _, id := range T {
+				if id != holder {
+					liar2 = id
+				}
+			}
+			if holder != 0 && liar2 != 0 {
+				qs = clone(qcsHonest)
+				qs[liar2] = hotstuff.NewQuorumCert(w.assemble(honest(SB[:min(len(SB), q-1)], B.ToBytes()), nil, 0), qcB.View(), qcB.BlockHash())
+				mutA("signer-attests-invalid-twin-of-best-qc", qs, w.assemble(aggPieces(T, tv, qs), nil, 0), tv)
+			}
+		}
 		// messages signed for another view
 		mutA("foreign-view-messages", qcsHonest, w.assemble(aggPieces(T, tv+1, qcsHonest), nil, 0), tv)
 		mutA("empty-participants", qcsHonest, w.assemble(nil, nil, 0), tv)
